@@ -29,6 +29,30 @@ fn pw(x: &[u64; 4]) -> String {
 fn rw(rng: &mut Rng) -> [u64; 4] {
     [rng.below(P), rng.below(P), rng.below(P), rng.below(P)]
 }
+/// value words with structure: elements summing to zero, zeros in some positions, boundary values
+fn vw(rng: &mut Rng) -> [u64; 4] {
+    match rng.below(10) {
+        0 => {
+            let a = 1 + rng.below(P - 1);
+            let mut wd = [a, P - a, 0, 0];
+            rng.shuffle(&mut wd);
+            wd
+        }
+        1 => {
+            let (a, b, c) = (rng.below(P), rng.below(P), rng.below(P));
+            let s = ((a as u128 + b as u128 + c as u128) % P as u128) as u64;
+            [a, b, c, (P - s) % P]
+        }
+        2 => {
+            let mut wd = [0, 0, 0, 1 + rng.below(P - 1)];
+            rng.shuffle(&mut wd);
+            wd
+        }
+        3 => [rng.felt(), rng.felt(), rng.felt(), rng.felt()],
+        4 => [P - 1, P - 1, P - 1, P - 1],
+        _ => rw(rng),
+    }
+}
 fn top_first(x: &[u64; 4]) -> Vec<u64> {
     vec![x[3], x[2], x[1], x[0]]
 }
@@ -393,7 +417,7 @@ impl Prop for C18 {
                     }
                 }
                 let ninit = rng.below(nkeys);
-                let init: Vec<Value> = keys.iter().take(ninit as usize).map(|k| json!({"k": k.iter().map(|x| x.to_string()).collect::<Vec<_>>(), "v": rw(rng).iter().map(|x| x.to_string()).collect::<Vec<_>>()})).collect();
+                let init: Vec<Value> = keys.iter().take(ninit as usize).map(|k| json!({"k": k.iter().map(|x| x.to_string()).collect::<Vec<_>>(), "v": vw(rng).iter().map(|x| x.to_string()).collect::<Vec<_>>()})).collect();
                 let nops = rng.range(3, 12);
                 let mut ops = vec![];
                 for _ in 0..nops {
@@ -402,7 +426,7 @@ impl Prop for C18 {
                     match rng.below(5) {
                         0 | 1 => ops.push(json!({"op": "get", "k": ks})),
                         2 => ops.push(json!({"op": "set", "k": ks, "v": ["0", "0", "0", "0"]})),
-                        _ => ops.push(json!({"op": "set", "k": ks, "v": rw(rng).iter().map(|x| x.to_string()).collect::<Vec<_>>()})),
+                        _ => ops.push(json!({"op": "set", "k": ks, "v": vw(rng).iter().map(|x| x.to_string()).collect::<Vec<_>>()})),
                     }
                 }
                 json!({"kind": "smt", "init": init, "ops": ops})
